@@ -196,6 +196,13 @@ def open_archive(kind, path, cached):
         return ka.file_archive(path + '.pkl', cached=cached)
     if kind == 'filejson':
         return ka.file_archive(path + '.json', cached=cached, protocol='json')
+    if kind == 'filesrc':
+        return ka.file_archive(path + '_s.py', cached=cached, serialized=False)
+    if kind == 'filesrcbare':
+        # source-text archive named without the .py suffix (klepto appends it)
+        return ka.file_archive(path + '_bare', cached=cached, serialized=False)
+    if kind == 'dirsrc':
+        return ka.dir_archive(path + '_ds', cached=cached, serialized=False)
     if kind == 'dir':
         return ka.dir_archive(path + '_d', cached=cached)
     if kind == 'dirjson':
@@ -209,7 +216,7 @@ def open_archive(kind, path, cached):
     raise ValueError(kind)
 
 
-PERSISTENT = ('file', 'filejson', 'dir', 'dirjson', 'dirfast', 'sql')
+PERSISTENT = ('file', 'filejson', 'filesrc', 'filesrcbare', 'dir', 'dirjson', 'dirfast', 'dirsrc', 'sql')
 
 
 def decorator_class(cfg):
@@ -371,10 +378,17 @@ def canon_obj(o, depth=0):
         return ('fn', getattr(o, '__qualname__', o.__name__))
     mod = type(o).__module__ or ''
     if mod.startswith('klepto'):
+        # configuration objects (keymaps, rounding helpers): their repr *and* their attributes -- a rounding helper's
+        # tolerance, for instance, is not in its repr
         try:
-            return ('klepto', type(o).__name__, repr(o))
+            r = repr(o)
         except Exception:
-            return ('klepto', type(o).__name__)
+            r = None
+        attrs = ()
+        d = getattr(o, '__dict__', None)
+        if isinstance(d, dict) and depth < 3:
+            attrs = tuple((str(k), canon_obj(v, depth + 1)) for k, v in sorted(d.items(), key=lambda kv: str(kv[0])))
+        return ('klepto', type(o).__name__, r, attrs)
     return ('obj', type(o).__name__)
 
 
@@ -486,8 +500,13 @@ def apply_event(S, ev, script=(), light=False, pre=None):
                 S.ctl['raise'] = exc
                 tr.raised = exc
                 tr.ret = w(*a, **k)
-            elif kind == 'callu':
+            elif kind in ('callu', 'raiseu'):
                 name, val = unkeyables()[ev[1]]
+                if kind == 'raiseu':
+                    # an argument the keymap cannot key *and* a function that raises
+                    exc = Boom('boom unkeyable %s' % name)
+                    S.ctl['raise'] = exc
+                    tr.raised = exc
                 tr.extra['value_kind'] = name
                 tr.extra['value'] = val
                 try:
